@@ -548,7 +548,11 @@ func (a *aggregate) writeEvidence(m Meta, prop, tier string, base uint64, total,
 	}
 	dir := filepath.Join(Root(), "evidence")
 	os.MkdirAll(dir, 0755)
-	return os.WriteFile(filepath.Join(dir, prop+".json"), append(b, '\n'), 0644)
+	name := prop
+	if n := os.Getenv("VERIF_EVIDENCE_NAME"); n != "" {
+		name = n // a second engine contributing to the same property writes a side file that the front door merges
+	}
+	return os.WriteFile(filepath.Join(dir, name+".json"), append(b, '\n'), 0644)
 }
 
 // errOut is the harness's own stderr, captured before an engine redirects the
